@@ -1,6 +1,7 @@
 import Mieru.Gen.Consts
 import Mieru.Proofs.Discovery
 import Mieru.Proofs.SrcCache
+import Mieru.Proofs.Session
 /-!
 # C07 — sessions are attributed to the authenticating user despite caches and reloads
 
@@ -465,5 +466,450 @@ theorem cache_constants_match_source :
     (Mieru.SrcCache.nWays : Int) = Mieru.Gen.sourceUserCacheWays ∧
     (Mieru.SrcCache.nSlots : Int) = Mieru.Gen.sourceUserCacheUsers ∧
     (Mieru.Discovery.slots : Int) = Mieru.Gen.sourceUserCacheUsers := by decide
+
+/-! ## SESSIONS: the server branch of `readOneSegment` (existing-session match ∨ `Discover`)
+
+`Mieru.Session` (Model/Session.lean).  Clause 1 of the property is a statement about the SESSIONS a
+server accepts; the theorems below compose the `tryState` theorems with the branch structure of
+the two underlays.  They also say exactly what happens to sessions that never reach `Discover`
+(audit item G1): on UDP a datagram from the ip:port of a live session that opens under that
+session's cipher, on TCP every segment after the first of a connection.  Such a session is
+attributed to the user the carrying session / connection was authenticated as — a user of the
+generation published THEN, not necessarily of the one published now.  "New connection" in the
+property's reload clause is therefore read as: a segment that no live carrier opens (UDP: no live
+session from that ip:port holds a cipher that opens it; TCP: the first segment of a connection).
+For those the clause is a theorem (`udp_new_connection_not_retired`, `tcp_new_connection_not_retired`);
+for the others the exact behaviour of the code is a theorem too (`udp_retired_only_via_live_session`,
+`udp_retired_generation_dies_out` and the TCP twins), reproduced on the real server by
+harness/props/c07_sessions.go. -/
+
+section sessions
+open Mieru.Session
+
+/-- `Registry.Discover` returns only a user of that generation whose credential sealed the segment -/
+theorem discover_sound (g : Gen) (m : Bool) (s : Seg) (u : User) (h : discover g m s = some u) :
+    u ∈ g ∧ s.key = some u.cred := by
+  unfold discover at h
+  split at h
+  · rename_i id o hr
+    obtain ⟨_, ha⟩ := tryState_sound _ _ _ _ _ id o hr
+    obtain ⟨u', hu', hk⟩ := (authOf_true g s id).mp ha
+    rw [hu'] at h
+    have hue : u' = u := Option.some.inj h
+    subst hue
+    exact ⟨(userAt_some g id u' hu').2.2.2, hk⟩
+  · cases h
+
+/-- … preferring a user named by the segment's hint: if a hinted user's credential sealed it, the
+    result is a hinted user whose credential sealed it -/
+theorem discover_prefers_hint (g : Gen) (m : Bool) (s : Seg) (w : User) (hw : w ∈ g)
+    (hh : w.name ∈ s.hinted) (ha : s.key = some w.cred) :
+    ∃ u, discover g m s = some u ∧ u ∈ g ∧ u.name ∈ s.hinted ∧ s.key = some u.cred := by
+  obtain ⟨id, h1, h2, hid⟩ := userAt_of_mem g w hw
+  obtain ⟨u, o, hr, hu, hhu, hau, _⟩ := tryState_hint_precedence g.length (hintOf g s) (authOf g s) s.cached m id
+    ⟨h1, h2⟩ ((hintOf_true g s id).mpr ⟨w, hid, hh⟩) ((authOf_true g s id).mpr ⟨w, hid, ha⟩)
+  obtain ⟨x, hx, hxh⟩ := (hintOf_true g s u).mp hhu
+  obtain ⟨x', hx', hxa⟩ := (authOf_true g s u).mp hau
+  rw [hx] at hx'; cases hx'
+  refine ⟨x, ?_, (userAt_some g u x hx).2.2.2, hxh, hxa⟩
+  unfold discover
+  rw [hr]
+  exact hx
+
+/-- rejection: with optional hints exactly the segments no registered credential sealed; with
+    mandatory hints exactly those no HINTED registered credential sealed -/
+theorem discover_rejects (g : Gen) (m : Bool) (s : Seg) :
+    (m = false → (discover g m s = none ↔ ∀ u ∈ g, s.key ≠ some u.cred)) ∧
+    (m = true → (discover g m s = none ↔ ∀ u ∈ g, u.name ∈ s.hinted → s.key ≠ some u.cred)) := by
+  have hsome : ∀ id o, (tryState g.length (hintOf g s) (authOf g s) s.cached m).user = some (id, o) →
+      ∃ u, discover g m s = some u := by
+    intro id o hr
+    obtain ⟨hu, _⟩ := tryState_sound _ _ _ _ _ id o hr
+    obtain ⟨u, hu'⟩ := userAt_valid g id hu.1 hu.2
+    exact ⟨u, by unfold discover; rw [hr]; exact hu'⟩
+  constructor
+  · intro hm
+    constructor
+    · intro hn u hu hk
+      obtain ⟨id, h1, h2, hid⟩ := userAt_of_mem g u hu
+      obtain ⟨u', o, hr⟩ := (tryState_complete_optional g.length (hintOf g s) (authOf g s) s.cached m hm).mpr
+        ⟨id, ⟨h1, h2⟩, (authOf_true g s id).mpr ⟨u, hid, hk⟩⟩
+      obtain ⟨x, hx⟩ := hsome u' o hr
+      rw [hn] at hx; cases hx
+    · intro hall
+      cases hd : discover g m s with
+      | none => rfl
+      | some u =>
+        obtain ⟨hu, hk⟩ := discover_sound g m s u hd
+        exact absurd hk (hall u hu)
+  · intro hm
+    constructor
+    · intro hn u hu hh hk
+      obtain ⟨x, hx, _⟩ := discover_prefers_hint g m s u hu hh hk
+      rw [hn] at hx; cases hx
+    · intro hall
+      have hnone := (tryState_mandatory g.length (hintOf g s) (authOf g s) s.cached m hm).2 (by
+        intro w hw hhw
+        obtain ⟨x, hx, hxh⟩ := (hintOf_true g s w).mp hhw
+        cases ha : authOf g s w with
+        | false => rfl
+        | true =>
+          obtain ⟨x', hx', hxa⟩ := (authOf_true g s w).mp ha
+          rw [hx] at hx'; cases hx'
+          exact absurd hxa (hall x (userAt_some g w x hx).2.2.2 hxh))
+      unfold discover
+      rw [hnone]
+
+/-- with mandatory hints whoever is returned is named by the hint -/
+theorem discover_mandatory_hinted (g : Gen) (s : Seg) (u : User) (h : discover g true s = some u) :
+    u.name ∈ s.hinted := by
+  unfold discover at h
+  split at h
+  · rename_i id o hr
+    obtain ⟨_, hh, _⟩ := (tryState_mandatory g.length (hintOf g s) (authOf g s) s.cached true rfl).1 id o hr
+    obtain ⟨x, hx, hxh⟩ := (hintOf_true g s id).mp hh
+    rw [hx] at h; cases h
+    exact hxh
+  · cases h
+
+/-- DISTINCT CREDENTIALS: the result of `Registry.Discover` does not depend on what the source cache
+    returned, nor on the source address -/
+theorem discover_cache_source_independent (g : Gen) (m : Bool) (s : Seg)
+    (hd : (g.map (·.cred)).Nodup) (cached' : List Nat) (addr' pick' : Nat) :
+    discover g m { s with cached := cached', addr := addr', pick := pick' } = discover g m s := by
+  have huniq : ∀ v w, IsUser g.length v → IsUser g.length w → authOf g s v = true → authOf g s w = true → v = w := by
+    intro v w hv hw hav haw
+    obtain ⟨uv, huv, hkv⟩ := (authOf_true g s v).mp hav
+    obtain ⟨uw, huw, hkw⟩ := (authOf_true g s w).mp haw
+    have h1 := (userAt_some g v uv huv).2.2.1
+    have h2 := (userAt_some g w uw huw).2.2.1
+    have hc : uv.cred = uw.cred := by rw [hkv] at hkw; exact (Option.some.inj hkw)
+    have hv1 : v - 1 < (g.map (·.cred)).length := by simp only [List.length_map]; have := hv.1; have := hv.2; omega
+    have hw1 : w - 1 < (g.map (·.cred)).length := by simp only [List.length_map]; have := hw.1; have := hw.2; omega
+    have e1 : (g.map (·.cred))[v - 1]? = some uv.cred := by simp [List.getElem?_map, h1]
+    have e2 : (g.map (·.cred))[w - 1]? = some uw.cred := by simp [List.getElem?_map, h2]
+    have : v - 1 = w - 1 := (List.getElem?_inj hv1 hd).mp (by rw [e1, e2, hc])
+    have := hv.1; have := hw.1; omega
+  have hind := tryState_cache_independent g.length (hintOf g s) (authOf g s) s.cached m huniq cached'
+  rw [discover_eq_bind, discover_eq_bind]
+  have h1 : hintOf g { s with cached := cached', addr := addr', pick := pick' } = hintOf g s := rfl
+  have h2 : authOf g { s with cached := cached', addr := addr', pick := pick' } = authOf g s := rfl
+  rw [h1, h2]
+  simp only
+  rw [← hind]
+
+/-! ### UDP -/
+
+/-- CLAUSE 1 FOR SESSIONS (UDP): every session the server accepts is attributed to a user `u` of a
+    generation that was published, and `u`'s credential sealed the session's first segment.  If
+    the segment reached `Registry.Discover` (`via = true`) that generation is the published one, a
+    hinted user whose credential sealed the segment has precedence, and with mandatory hints the
+    user is hinted.  Otherwise (`via = false`) a live session from the same ip:port whose cipher
+    opens the segment exists and the new session inherits its user and generation. -/
+theorem udp_session_attributed (st st' : UServer) (s : Seg) (name gi : Nat) (via : Bool)
+    (hinv : UInv st) (h : udpSeg st s = (st', .accepted name gi via)) :
+    ∃ g u, st.gens[gi]? = some g ∧ u ∈ g ∧ u.name = name ∧ s.key = some u.cred ∧
+      (via = true → matching st.sessions s = [] ∧ gi = st.gens.length - 1 ∧ g = current st.gens ∧
+        ((∃ w ∈ g, w.name ∈ s.hinted ∧ s.key = some w.cred) → name ∈ s.hinted) ∧
+        (st.mandatory = true → name ∈ s.hinted)) ∧
+      (via = false → ∃ x ∈ st.sessions, x.addr = s.addr ∧ s.key = some x.key ∧ x.user = name ∧ x.gen = gi) := by
+  obtain ⟨k, _, _, _, _, horg⟩ := udpSeg_accepted st st' s name gi via h
+  cases horg with
+  | existing x hx ha hk e1 e2 e3 =>
+    obtain ⟨g, hg, u, hu, hn, hc⟩ := hinv x hx
+    subst e2 e3
+    refine ⟨g, u, hg, hu, hn, by rw [hk, hc], (fun hv => by cases hv), fun _ => ⟨x, hx, ha, hk, rfl, rfl⟩⟩
+  | discovered hno u hd e1 e2 e3 =>
+    obtain ⟨hu, hk⟩ := discover_sound _ _ _ _ hd
+    have hne := gens_ne_nil_of_mem_current _ _ hu
+    subst e2 e3
+    refine ⟨current st.gens, u, current_eq_getElem _ hne, hu, rfl, hk, ?_, (fun hv => by cases hv)⟩
+    intro _
+    refine ⟨hno, rfl, rfl, ?_, ?_⟩
+    · rintro ⟨w, hw, hh, ha⟩
+      obtain ⟨u', hd', _, hh', _⟩ := discover_prefers_hint _ st.mandatory s w hw hh ha
+      rw [hd] at hd'; cases hd'
+      exact hh'
+    · intro hm
+      rw [hm] at hd
+      exact discover_mandatory_hinted _ _ _ hd
+
+/-- the attribution invariant is preserved by every event (segments of any kind from anybody,
+    reloads, removals) -/
+theorem udp_inv_step (st : UServer) (e : Ev) (hinv : UInv st) : UInv (udpStep st e).1 := by
+  obtain ⟨m, hg, _⟩ := udpStep_gens st e
+  intro y hy
+  rw [hg]
+  rcases udpStep_sessions st e y hy with hold | ⟨s, name, gi, via, k, he, hacc, hyeq, horg⟩
+  · exact (hinv y hold).mono m
+  · subst hyeq
+    apply Attributed.mono
+    cases horg with
+    | existing x hx ha hk e1 e2 e3 =>
+      subst e1 e2 e3
+      exact hinv x hx
+    | discovered hno u hd e1 e2 e3 =>
+      obtain ⟨hu, hk⟩ := discover_sound _ _ _ _ hd
+      subst e1 e2 e3
+      exact ⟨current st.gens, current_eq_getElem _ (gens_ne_nil_of_mem_current _ _ hu), u, hu, rfl, rfl⟩
+
+/-- hence, over EVERY history: every live session is attributed to a user of a generation that was
+    published, whose credential is the one the session's cipher holds -/
+theorem udp_sessions_always_attributed (st : UServer) (evs : List Ev) (hinv : UInv st) :
+    UInv (udpRun st evs) := by
+  induction evs generalizing st with
+  | nil => exact hinv
+  | cons e es ih => exact ih _ (udp_inv_step st e hinv)
+
+/-- a segment nobody sealed (garbage, forged) creates nothing, whatever sessions exist -/
+theorem udp_garbage_dropped (st : UServer) (s : Seg) (hk : s.key = none) : udpSeg st s = (st, .dropped) := by
+  have hm : matching st.sessions s = [] := by
+    apply List.eq_nil_iff_forall_not_mem.mpr
+    intro x hx
+    have := ((mem_matching _ _ _).mp hx).2.2
+    rw [hk] at this; cases this
+  rw [udpSeg_no_match st s hm]
+  have : discover (current st.gens) st.mandatory s = none := by
+    cases hd : discover (current st.gens) st.mandatory s with
+    | none => rfl
+    | some u => have := (discover_sound _ _ _ _ hd).2; rw [hk] at this; cases this
+  rw [this]
+
+/-- RELOAD CLAUSE, new connections (UDP): a segment that no live session from its ip:port opens and
+    that no credential registered in the PUBLISHED generation sealed is dropped: nothing is
+    created — however recently that credential was still registered -/
+theorem udp_new_connection_not_retired (st : UServer) (s : Seg)
+    (hnew : matching st.sessions s = [])
+    (hret : ∀ u ∈ current st.gens, s.key ≠ some u.cred) : udpSeg st s = (st, .dropped) := by
+  rw [udpSeg_no_match st s hnew]
+  have : discover (current st.gens) st.mandatory s = none := by
+    cases hd : discover (current st.gens) st.mandatory s with
+    | none => rfl
+    | some u => obtain ⟨hu, hk⟩ := discover_sound _ _ _ _ hd; exact absurd hk (hret u hu)
+  rw [this]
+
+/-- … and the exact extent of what the code does otherwise (G1): a session attributed through a
+    credential that is NOT registered in the published generation is accepted only without
+    consulting the registry, through a live session from the same ip:port whose cipher opens the
+    segment, and it inherits that session's user and generation -/
+theorem udp_retired_only_via_live_session (st st' : UServer) (s : Seg) (name gi : Nat) (via : Bool)
+    (hinv : UInv st) (hret : ∀ u ∈ current st.gens, s.key ≠ some u.cred)
+    (h : udpSeg st s = (st', .accepted name gi via)) :
+    via = false ∧ ∃ x ∈ st.sessions, x.addr = s.addr ∧ s.key = some x.key ∧ x.user = name ∧ x.gen = gi := by
+  obtain ⟨g, u, hg, hu, hn, hk, hvia, hex⟩ := udp_session_attributed st st' s name gi via hinv h
+  cases via with
+  | false => exact ⟨rfl, hex rfl⟩
+  | true =>
+    obtain ⟨_, _, hcur, _⟩ := hvia rfl
+    subst hcur
+    exact absurd hk (hret u hu)
+
+/-- … which dies out: once no live session belongs to a retired generation, no session ever belongs
+    to it again — whatever arrives later -/
+theorem udp_retired_generation_dies_out (st : UServer) (evs : List Ev) (gi : Nat)
+    (hretired : gi + 1 < st.gens.length) (hnone : ∀ x ∈ st.sessions, x.gen ≠ gi) :
+    ∀ x ∈ (udpRun st evs).sessions, x.gen ≠ gi := by
+  induction evs generalizing st with
+  | nil => exact hnone
+  | cons e es ih =>
+    obtain ⟨m, hg, _⟩ := udpStep_gens st e
+    apply ih (udpStep st e).1
+    · rw [hg, List.length_append]; omega
+    · intro y hy
+      rcases udpStep_sessions st e y hy with hold | ⟨s, name, gi', via, k, he, hacc, hyeq, horg⟩
+      · exact hnone y hold
+      · subst hyeq
+        cases horg with
+        | existing x hx ha hk e1 e2 e3 => subst e3; exact hnone x hx
+        | discovered hno u hd e1 e2 e3 => subst e3; simp only; omega
+
+/-! ### TCP -/
+
+/-- CLAUSE 1 FOR SESSIONS (TCP): every session the server accepts is attributed to a user `u` of a
+    generation that was published, whose credential sealed the segment.  `via = true`: it is the
+    FIRST segment of a connection, it went through `Registry.Discover` on the published generation
+    (hint precedence, mandatory hints as for UDP).  `via = false`: the connection was established
+    by an earlier first segment and the session inherits the connection's user and generation. -/
+theorem tcp_session_attributed (st st' : TServer) (s : Seg) (name gi : Nat) (via : Bool)
+    (hinv : TInv st) (h : tcpSeg st s = (st', .accepted name gi via)) :
+    ∃ g u, st.gens[gi]? = some g ∧ u ∈ g ∧ u.name = name ∧ s.key = some u.cred ∧
+      (via = true → st.conns.lookup s.addr = none ∧ gi = st.gens.length - 1 ∧ g = current st.gens ∧
+        ((∃ w ∈ g, w.name ∈ s.hinted ∧ s.key = some w.cred) → name ∈ s.hinted) ∧
+        (st.mandatory = true → name ∈ s.hinted)) ∧
+      (via = false → ∃ k, st.conns.lookup s.addr = some (.est k name gi) ∧ s.key = some k) := by
+  have hf := tcpSeg_frame st s
+  rw [h] at hf
+  obtain ⟨k, _, _, _, horg⟩ := hf.accepted name gi via rfl
+  cases horg with
+  | established hc hk =>
+    obtain ⟨g, hg, u, hu, hn, hcr⟩ := hinv.2 _ _ _ _ (lookup_mem _ _ _ hc)
+    exact ⟨g, u, hg, hu, hn, by rw [hk, hcr], (fun hv => by cases hv), fun _ => ⟨k, hc, hk⟩⟩
+  | discovered hno u hd e1 e2 e3 =>
+    obtain ⟨hu, hk⟩ := discover_sound _ _ _ _ hd
+    have hne := gens_ne_nil_of_mem_current _ _ hu
+    subst e2 e3
+    refine ⟨current st.gens, u, current_eq_getElem _ hne, hu, rfl, hk, ?_, (fun hv => by cases hv)⟩
+    intro _
+    refine ⟨hno, rfl, rfl, ?_, ?_⟩
+    · rintro ⟨w, hw, hh, ha⟩
+      obtain ⟨u', hd', _, hh', _⟩ := discover_prefers_hint _ st.mandatory s w hw hh ha
+      rw [hd] at hd'; cases hd'
+      exact hh'
+    · intro hm
+      rw [hm] at hd
+      exact discover_mandatory_hinted _ _ _ hd
+
+theorem tcp_inv_step (st : TServer) (e : Ev) (hinv : TInv st) : TInv (tcpStep st e).1 := by
+  cases e with
+  | reload g => exact ⟨fun x hx => (hinv.1 x hx).mono [g], fun a k u gg h => (hinv.2 a k u gg h).mono [g]⟩
+  | gone a sid =>
+    refine ⟨fun x hx => ?_, hinv.2⟩
+    simp only [tcpStep, List.mem_filter] at hx
+    exact hinv.1 x hx.1
+  | connClosed a =>
+    refine ⟨fun x hx => ?_, fun a' k u g hin => ?_⟩
+    · simp only [tcpStep, List.mem_filter] at hx
+      exact hinv.1 x hx.1
+    · simp only [tcpStep, List.mem_filter] at hin
+      exact hinv.2 a' k u g hin.1
+  | seg s =>
+    have hf := tcpSeg_frame st s
+    have horg : ∀ k name gi via, TOrigin st s k name gi via → Attributed st.gens k name gi := by
+      intro k name gi via ho
+      cases ho with
+      | established hc hk => exact hinv.2 _ _ _ _ (lookup_mem _ _ _ hc)
+      | discovered hno u hd e1 e2 e3 =>
+        obtain ⟨hu, hk⟩ := discover_sound _ _ _ _ hd
+        subst e1 e2 e3
+        exact ⟨current st.gens, current_eq_getElem _ (gens_ne_nil_of_mem_current _ _ hu), u, hu, rfl, rfl⟩
+    refine ⟨fun y hy => ?_, fun a k u g hin => ?_⟩
+    · simp only [tcpStep] at hy ⊢
+      rw [hf.gens]
+      rcases hf.sessions y hy with hold | ⟨name, gi, via, k, _, hyeq, _, _, ho⟩
+      · exact hinv.1 y hold
+      · subst hyeq; exact horg _ _ _ _ ho
+    · simp only [tcpStep] at hin ⊢
+      rw [hf.gens]
+      rcases hf.conns a k u g hin with hold | ⟨_, _, ho⟩
+      · exact hinv.2 a k u g hold
+      · exact horg _ _ _ _ ho
+
+/-- over EVERY history: every live session and every established connection is attributed to a user
+    of a generation that was published, whose credential is the one its cipher holds -/
+theorem tcp_sessions_always_attributed (st : TServer) (evs : List Ev) (hinv : TInv st) :
+    TInv (tcpRun st evs) := by
+  induction evs generalizing st with
+  | nil => exact hinv
+  | cons e es ih => exact ih _ (tcp_inv_step st e hinv)
+
+/-- RELOAD CLAUSE, new connections (TCP): the first segment of a connection that no credential
+    registered in the PUBLISHED generation sealed creates no session and the connection is closed -/
+theorem tcp_new_connection_not_retired (st : TServer) (s : Seg)
+    (hnew : st.conns.lookup s.addr = none)
+    (hret : ∀ u ∈ current st.gens, s.key ≠ some u.cred) : tcpSeg st s = tKill st s.addr := by
+  have : discover (current st.gens) st.mandatory s = none := by
+    cases hd : discover (current st.gens) st.mandatory s with
+    | none => rfl
+    | some u => obtain ⟨hu, hk⟩ := discover_sound _ _ _ _ hd; exact absurd hk (hret u hu)
+  unfold tcpSeg
+  rw [hnew]
+  simp only [this]
+
+/-- … and what the code does otherwise (G1): a session attributed through a credential that is not
+    registered in the published generation is accepted only on a connection that was established
+    (by its own first segment) with that credential, and inherits the connection's user and
+    generation -/
+theorem tcp_retired_only_via_established_connection (st st' : TServer) (s : Seg) (name gi : Nat) (via : Bool)
+    (hinv : TInv st) (hret : ∀ u ∈ current st.gens, s.key ≠ some u.cred)
+    (h : tcpSeg st s = (st', .accepted name gi via)) :
+    via = false ∧ ∃ k, st.conns.lookup s.addr = some (.est k name gi) ∧ s.key = some k := by
+  obtain ⟨g, u, hg, hu, hn, hk, hvia, hex⟩ := tcp_session_attributed st st' s name gi via hinv h
+  cases via with
+  | false => exact ⟨rfl, hex rfl⟩
+  | true =>
+    obtain ⟨_, _, hcur, _⟩ := hvia rfl
+    subst hcur
+    exact absurd hk (hret u hu)
+
+/-- … which dies out with the last connection of the retired generation -/
+theorem tcp_retired_generation_dies_out (st : TServer) (evs : List Ev) (gi : Nat)
+    (hretired : gi + 1 < st.gens.length)
+    (hnone : (∀ x ∈ st.sessions, x.gen ≠ gi) ∧ (∀ a k u g, (a, CState.est k u g) ∈ st.conns → g ≠ gi)) :
+    (∀ x ∈ (tcpRun st evs).sessions, x.gen ≠ gi) ∧
+    (∀ a k u g, (a, CState.est k u g) ∈ (tcpRun st evs).conns → g ≠ gi) := by
+  induction evs generalizing st with
+  | nil => exact hnone
+  | cons e es ih =>
+    apply ih (tcpStep st e).1
+    · cases e with
+      | reload g => simp only [tcpStep, List.length_append, List.length_singleton]; omega
+      | gone a sid => exact hretired
+      | connClosed a => exact hretired
+      | seg s => simp only [tcpStep]; rw [(tcpSeg_frame st s).gens]; exact hretired
+    · cases e with
+      | reload g => exact hnone
+      | gone a sid =>
+        refine ⟨fun x hx => ?_, hnone.2⟩
+        simp only [tcpStep, List.mem_filter] at hx
+        exact hnone.1 x hx.1
+      | connClosed a =>
+        refine ⟨fun x hx => ?_, fun a' k u g hin => ?_⟩
+        · simp only [tcpStep, List.mem_filter] at hx
+          exact hnone.1 x hx.1
+        · simp only [tcpStep, List.mem_filter] at hin
+          exact hnone.2 a' k u g hin.1
+      | seg s =>
+        have hf := tcpSeg_frame st s
+        have horg : ∀ k name g via, TOrigin st s k name g via → g ≠ gi := by
+          intro k name g via ho
+          cases ho with
+          | established hc hk => exact hnone.2 _ _ _ _ (lookup_mem _ _ _ hc)
+          | discovered hno u hd e1 e2 e3 => subst e3; omega
+        refine ⟨fun y hy => ?_, fun a k u g hin => ?_⟩
+        · simp only [tcpStep] at hy
+          rcases hf.sessions y hy with hold | ⟨name, g, via, k, _, hyeq, _, _, ho⟩
+          · exact hnone.1 y hold
+          · subst hyeq; exact horg _ _ _ _ ho
+        · simp only [tcpStep] at hin
+          rcases hf.conns a k u g hin with hold | ⟨_, _, ho⟩
+          · exact hnone.2 a k u g hold
+          · exact horg _ _ _ _ ho
+
+/-! ### non-vacuity, and the G1 behaviour exhibited
+
+alice (name 1, credential 10) and bob (name 2, credential 20); then a reload that removes bob. -/
+
+def g0 : Gen := [⟨1, 10⟩, ⟨2, 20⟩]
+def g1 : Gen := [⟨1, 10⟩]
+/-- bob's honest open request: sealed under his credential, hint names him -/
+def bobOpen (addr sid : Nat) : Seg :=
+  { addr := addr, key := some 20, hinted := [2], openReq := true, sid := sid, cached := [], pick := 0 }
+
+/-- UDP: bob (address 7) opens a session; the user list is reloaded without bob; the same ip:port
+    opens ANOTHER session — accepted without the registry, attributed to bob of generation 0; from a
+    fresh ip:port the same credential is refused; after bob's sessions are gone it is refused from
+    address 7 too -/
+example : udpOuts ⟨[g0], false, []⟩
+    [.seg (bobOpen 7 1), .reload g1, .seg (bobOpen 7 2), .seg (bobOpen 8 3),
+     .gone 7 1, .gone 7 2, .seg (bobOpen 7 4)]
+    = [.accepted 2 0 true, .quiet, .accepted 2 0 false, .dropped, .quiet, .quiet, .dropped] := by decide
+
+/-- TCP: the same on one connection (7): sessions keep being opened on the established connection
+    after the reload, even when no session is left on it; a new connection (8) is refused -/
+example : tcpOuts ⟨[g0], false, [], []⟩
+    [.seg (bobOpen 7 1), .reload g1, .seg (bobOpen 7 2), .seg (bobOpen 8 3),
+     .gone 7 1, .gone 7 2, .seg (bobOpen 7 4), .connClosed 7, .seg (bobOpen 7 5)]
+    = [.accepted 2 0 true, .quiet, .accepted 2 0 false, .dropped, .quiet, .quiet, .accepted 2 0 false,
+       .quiet, .dropped] := by decide
+
+/-- the existing-session path does not look at the hint: with MANDATORY hints a segment sealed by bob
+    whose hint names nobody is accepted from the ip:port of bob's live session and refused from any
+    other — so the source-independence clause holds for `Registry.Discover`
+    (`discover_cache_source_independent`), not for segments that bypass it -/
+example : udpOuts ⟨[g0], true, []⟩
+    [.seg (bobOpen 7 1), .seg { bobOpen 7 2 with hinted := [] }, .seg { bobOpen 8 3 with hinted := [] }]
+    = [.accepted 2 0 true, .accepted 2 0 false, .dropped] := by decide
+
+end sessions
 
 end Mieru.C07
